@@ -3,6 +3,12 @@ import PymocaVerif.Lemmas.FlattenMods
     Props/C07 and Props/C08 to show that the theorems' hypotheses are satisfiable. -/
 namespace PymocaVerif.Flatten
 
+instance {ε α : Type} [DecidableEq ε] [DecidableEq α] : DecidableEq (Except ε α)
+  | .ok a, .ok b => if h : a = b then isTrue (by rw [h]) else isFalse (fun h' => by cases h'; exact h rfl)
+  | .error a, .error b => if h : a = b then isTrue (by rw [h]) else isFalse (fun h' => by cases h'; exact h rfl)
+  | .ok _, .error _ => isFalse (fun h => by cases h)
+  | .error _, .ok _ => isFalse (fun h => by cases h)
+
 theorem flattenF_ok {fuel : Nat} {lib : Lib} {t : Path} {m : FlatModel} (h : flattenF fuel lib t = .ok m) :
     ∃ r, instF fuel lib t [] [] [] = .ok r ∧ m = assemble r ∧ instTop fuel lib t = .ok r := by
   unfold flattenF at h
